@@ -198,6 +198,8 @@ def make_world(seed):
         for t in g.hidden:
             for _ in range(24 if t.kind == "contested-intron-novel" else 12 if t.kind == "splice-site-tie" else 7):
                 w.read_from_transcript(t, mode="full", jitter=0, polya=True, flag=rng.choice((0, 16)))
+    from vlib import world2
+    world2.add_zoo(w)
     return w, truth_shared
 
 
